@@ -22,7 +22,8 @@ Inductive op :=
 | Clear.                           (* clearFailedAllocs() *)
 
 Inductive ares := ROk | RNull | RBadAlloc | RCrash.
-Inductive report := RepG (n : Z) | RepL (l : loc).          (* what the "never done" failure names *)
+Inductive report := RepG (n : Z) | RepL (l : loc)            (* what the "never done" failure names *)
+                  | RepAnon.                                (* a failure whose text names nothing recognisable (never produced by the model) *)
 Inductive alloc_id := ADefault | ACustom | ANull.           (* which allocator is the current malloc allocator *)
 Inductive oitem :=
 | OAlloc (r : ares)
@@ -216,6 +217,7 @@ Definition rep_matches (d : desig) (r : report) : bool :=
   match d, r with
   | DG n, RepG m => n =? m
   | DL _ l, RepL l' => loc_eqb l l'
+  | _, RepAnon => true                (* the property does not fix the wording of the failure *)
   | _, _ => false
   end.
 Definition fail_res (f : family) : ares := match f with FNew | FNewArr => RBadAlloc | _ => RNull end.
@@ -306,6 +308,40 @@ Definition valid (s : scenario) : bool :=
   | SFail ops => valid_from 0 [] ops 0
   | SCount custom cops => cvalid custom None 0 cops
   end.
+
+(* ------------------------------------------------------------------ projections used by the Prop-level theorems *)
+Fixpoint alloc_results (obs : list oitem) : list ares :=
+  match obs with [] => [] | OAlloc r :: t => r :: alloc_results t | _ :: t => alloc_results t end.
+Fixpoint check_flags (obs : list oitem) : list bool :=
+  match obs with
+  | [] => []
+  | OCheck rep :: t => (match rep with Some _ => true | None => false end) :: check_flags t
+  | _ :: t => check_flags t
+  end.
+(* per allocation of the history: fail (in the way of its family) iff an installed designation denotes it *)
+Fixpoint expected_allocs (g : Z) (ins : list entry) (ops : list op) (pos : nat) : list ares :=
+  match ops with
+  | [] => []
+  | o :: r =>
+      let (g', ins') := sstep g ins o r pos in
+      match o with
+      | Alloc f _ => (if existsb (hits pos) ins then fail_res f else ROk) :: expected_allocs g' ins' r (S pos)
+      | _ => expected_allocs g' ins' r (S pos)
+      end
+  end.
+(* per check of the history: does some installed designation still wait for its allocation *)
+Fixpoint expected_checks (g : Z) (ins : list entry) (ops : list op) (pos : nat) : list bool :=
+  match ops with
+  | [] => []
+  | o :: r =>
+      let (g', ins') := sstep g ins o r pos in
+      match o with
+      | Check => existsb (pending pos) ins :: expected_checks g' ins' r (S pos)
+      | _ => expected_checks g' ins' r (S pos)
+      end
+  end.
+Fixpoint zseq (start : Z) (len : nat) : list Z :=
+  match len with O => [] | S k => start :: zseq (start + 1) k end.
 
 (* the old code, for replaying the refutation witnesses *)
 Definition run_old (s : scenario) : list oitem :=
